@@ -39,14 +39,15 @@ static void on_hang(const HangInfo& hi) {
     }
     else if (bpush > 0 && cap >= 0 && inside < cap) what = kind;       // blocked below capacity on a non-empty queue
     else if ((cls == 'Q' || cls == 'P') && hc.phase.load() == 2) what = "blocked-caller-not-released";   // abort() returned, a call that was blocked before it did not
-    else if (bpop > 0 || bpush > 0) {
-        // blocked pops on an abstractly empty queue / pushes on a full one with nobody left to help: the harness itself
-        // should have helped; report as a harness problem (exit 4 => inconclusive), not as a verdict about oneTBB
-        if (cls == 'L' || cls == 'S' || cls == 'U' || cls == 'G') { R.inconclusive++; fprintf(stderr, "[c09] stall without a satisfiable wait (harness)\n%s\n", d.c_str()); R.finish_and_exit(4); }
-    }
+    // Otherwise (blocked pops on an abstractly empty queue / pushes on a full one, or no blocking call at all): in classes
+    // L S U G the coordinator helps such calls and every helping operation either makes progress or is itself reported
+    // (and followed by abort()), so a stall here means that some operation never returns although nothing it can
+    // legitimately wait for is missing: c09.<class>.hang.<kind>.
     if (cls == 'R' && what == "push-blocked-on-empty-queue") what = kind;
-    if ((cls == 'Q' || cls == 'P' || cls == 'R') && hc.phase.load() <= 1 && what == kind) {
-        // still waiting for the callers to block before the first abort(): nothing of the queue is being awaited
+    if ((cls == 'P' || cls == 'R') && hc.phase.load() <= 1 && what == kind) {
+        // still waiting for the callers to block before the first abort() in a class whose hang keys are known findings:
+        // do not let a harness-side wait be filed under them (class Q is strict: a pop of an empty queue that never reaches its
+        // wait is reported as c09.Q.hang.*)
         R.inconclusive++; fprintf(stderr, "[c09] stall while arming an abort scenario (harness)\n%s\n", d.c_str()); R.finish_and_exit(4);
     }
     R.violation(cls_key(cls, what), d, hc.scen());
